@@ -452,8 +452,10 @@ func (ch *n3Child) driveTo(mode string) {
 		}
 		_, _ = n.advance(1, 20*time.Second) // right after a commit the node waits timeout_commit in NewHeight
 	case "propose":
-		for k := 0; k < 3; k++ {
-			if waitUntil(60*time.Millisecond, func() bool { return n.conS.GetRoundState().Step == cstypes.RoundStepPropose }) {
+		// the node waits in the propose step (timeout_propose) whenever the harness' validator is the proposer
+		for k := 0; k < 4; k++ {
+			waitUntil(300*time.Millisecond, func() bool { return n.conS.GetRoundState().Step != cstypes.RoundStepNewHeight })
+			if n.conS.GetRoundState().Step == cstypes.RoundStepPropose {
 				return
 			}
 			_, _ = n.advance(1, 20*time.Second)
@@ -565,7 +567,7 @@ func stageN3x(c *verdict.Ctx, r *rec, arg string, init bool) {
 	}
 	defer logF.Close()
 	initWindow := time.Duration(c.N(4, 8)) * time.Second
-	opts := nodeOpts{gossipSleep: n3GossipSleep, timeoutCommit: 100 * time.Millisecond, skipTimeoutCommit: false}
+	opts := nodeOpts{gossipSleep: n3GossipSleep, timeoutCommit: 60 * time.Millisecond, skipTimeoutCommit: false}
 	if init {
 		opts = nodeOpts{gossipSleep: n3GossipSleep, timeoutCommit: initWindow, skipTimeoutCommit: true}
 	}
@@ -601,6 +603,8 @@ func stageN3x(c *verdict.Ctx, r *rec, arg string, init bool) {
 			g.focusPrev = mode == "newheight"
 			r.Count("n3.batches_in_mode."+mode, 1)
 		}
+		tBatch := time.Now()
+		mixedMode := "prevote"
 		for i := 0; i < limit; i++ {
 			if init {
 				rs := n.conS.GetRoundState()
@@ -610,7 +614,10 @@ func stageN3x(c *verdict.Ctx, r *rec, arg string, init bool) {
 			} else if i >= bs.start {
 				m := mode
 				if m == "mixed" {
-					m = n3Modes[rnd.Intn(4)]
+					if i%10 == 0 {
+						mixedMode = n3Modes[rnd.Intn(4)]
+					}
+					m = mixedMode
 				}
 				ch.driveTo(m)
 			}
@@ -638,6 +645,7 @@ func stageN3x(c *verdict.Ctx, r *rec, arg string, init bool) {
 				_, _ = n.advance(1, 20*time.Second)
 			}
 		}
+		r.Count("n3.batch_ms_in_mode."+mode, time.Since(tBatch).Milliseconds())
 		time.Sleep(20 * time.Millisecond)
 		ch.checkConsensus(stream, b)
 		if init {
